@@ -299,7 +299,14 @@ pub fn conformant_tag(kind: u32, key: u64, n: usize, sel: u32) -> Vec<u8> {
             let mut body = w(key, 8 + n * d, 8);
             pattern_fill(&mut body, 8, key, sel);
             put32(&mut body, 0, d as u32);
-            put32(&mut body, 4, 1);
+            // descriptor version: 1 (the only one the crate iterates) in three of
+            // four tags; the specification allows others
+            let ver = match (sel >> 4) & 7 {
+                6 => 2,
+                7 => [0u32, 3, 0x0001_0000, u32::MAX][((sel >> 7) & 3) as usize],
+                _ => 1,
+            };
+            put32(&mut body, 4, ver);
             tag(17, &body)
         }
         k => {
